@@ -31,7 +31,8 @@ def obligations(tier):
         o.append(ob(1, n))
     for n in ([13] if q else [13, 14, 16]):
         o.append(ob(1, n, alpha=2, timeout=900 if q else 3000))
-    for n in ([4, 12] if q else [0, 1, 4, 8, 12]):
+    # destinations SMALLER than the bound; n >= 16 makes literal runs of 15+ bytes (length-extension bytes in the token stream)
+    for n in ([4, 12, 16, 20] if q else [0, 1, 4, 8, 12, 16, 17, 20, 24, 31]):
         o.append(ob(1, n, mode=3))
     # emission lemmas (E1/CBMC): every (offset <= window limit of the source, len) is encoded faithfully — covers match distances
     # the bounded round trips cannot reach (inputs > 64 KiB are otherwise outside the bound)
